@@ -110,9 +110,10 @@ def matsQ8 (xs : List Int) : List (M32 Rat) :=
     | _ => none)
 
 /-- `resc`: the map is built by `m = identity; m *= M1; …; m *= Mn` in exact arithmetic (on the 1/8^n grid the doubles are exact) -/
-def resCDump (v : VT) (bil : Bool) (w h dw dh : Int) (n : Nat) (xs : List Int) : String :=
-  let m : M32 Rat := M32.chain (M32.one) (matsQ8 xs)
-  let D : Int := (8 : Int) ^ n
+def resCDump (v : VT) (bil : Bool) (w h dw dh : Int) (n : Nat) (xs : List Int) (self : Bool := false) : String :=
+  let m0 : M32 Rat := M32.chain (M32.one) (matsQ8 xs)
+  let m : M32 Rat := if self then M32.mulAssign m0 m0 else m0
+  let D : Int := (8 : Int) ^ (if self then 2 * n else n)
   let toG (q : Rat) : Int := (q * (D : Rat)).num      -- exact: every entry is a multiple of 1/8^n
   let rows := resample (P := String) (K := Int)
     (fun p => let t := pointTokenQ v bil w h p.1 p.2 D; if t == "o" then none else some t)
@@ -120,14 +121,61 @@ def resCDump (v : VT) (bil : Bool) (w h dw dh : Int) (n : Nat) (xs : List Int) :
     (fun _ _ => joinC ((chans v).map (fun _ => showSrc v v.sentinel))) dw.toNat dh.toNat
   " ".intercalate (rows.map (" ".intercalate ·))
 
+def matsI (xs : List Int) : List (M32 Rat) :=
+  (sixes xs).filterMap (fun g => match g with
+    | [a, b, c, d, e, f] => some (⟨(a : Rat), (b : Rat), (c : Rat), (d : Rat), (e : Rat), (f : Rat)⟩ : M32 Rat)
+    | _ => none)
+
+def pxToken (v : VT) (x y : Int) : String := joinC ((chans v).map (fun c => showSrc v (v.src c x y)))
+def sentToken (v : VT) : String := joinC ((chans v).map (fun _ => showSrc v v.sentinel))
+
+/-- `resrt`: forward pass with the composed integer map, backward pass with `inverse` of it (nearest neighbour at integer points) -/
+def resRtDump (v : VT) (w h dw dh : Int) (xs : List Int) : String :=
+  let m : M32 Rat := M32.chain M32.one (matsI xs)
+  let mi : M32 Rat := M32.inverse m
+  let at1 (x y : Int) : String :=
+    let p := m.apply ((x : Rat), (y : Rat))
+    match nearestQ w h p.1.num p.2.num 1 with            -- integer coordinates (den = 1)
+    | some (cx, cy) => pxToken v cx cy
+    | none => sentToken v
+  let at2 (u t : Int) : String :=
+    let q := mi.apply ((u : Rat), (t : Rat))
+    match nearestQ dw dh q.1.num q.2.num 1 with
+    | some (cx, cy) => at1 cx cy
+    | none => sentToken v
+  let d1 := (irange dh.toNat).flatMap (fun y => (irange dw.toNat).map (fun x => at1 x y))
+  let s2 := (irange h.toNat).flatMap (fun y => (irange w.toNat).map (fun x => at2 x y))
+  " ".intercalate d1 ++ " | " ++ " ".intercalate s2
+
 def model (line : String) : String :=
   match words line with
+  | "resrt" :: vt :: w :: h :: dw :: dh :: n :: rest =>
+    match VT.parse vt, ints [w, h, dw, dh, n], ints rest with
+    | some v, some [w, h, dw, dh, n], some xs =>
+      if xs.length ≠ 6 * n.toNat then "bad-op" else resRtDump v w h dw dh xs
+    | _, _, _ => "bad-op"
   | "resc" :: vt :: s :: w :: h :: dw :: dh :: n :: rest =>
     match VT.parse vt, ints [w, h, dw, dh, n], ints rest with
     | some v, some [w, h, dw, dh, n], some xs =>
       if xs.length ≠ 6 * n.toNat then "bad-op" else
       let d := resCDump v (s == "b") w h dw dh n.toNat xs; d ++ " | " ++ d
     | _, _, _ => "bad-op"
+  | "rescs" :: vt :: s :: w :: h :: dw :: dh :: n :: rest =>
+    match VT.parse vt, ints [w, h, dw, dh, n], ints rest with
+    | some v, some [w, h, dw, dh, n], some xs =>
+      if xs.length ≠ 6 * n.toNat then "bad-op" else
+      let d := resCDump v (s == "b") w h dw dh n.toNat xs true; d ++ " | " ++ d
+    | _, _, _ => "bad-op"
+  | "fop" :: k :: rest =>
+    match rest.mapM String.toNat? with
+    | some [a1, b1, c1, d1, e1, f1, a2, b2, c2, d2, e2, f2] =>
+      let g (n : Nat) : Float32 := Float32.ofBits n.toUInt32
+      let sb (x : Float32) : String := toString x.toBits.toNat
+      let a : M32 Float32 := ⟨g a1, g b1, g c1, g d1, g e1, g f1⟩; let b : M32 Float32 := ⟨g a2, g b2, g c2, g d2, g e2, g f2⟩
+      if k == "t" then let p := a.apply (b.a, b.b); sb p.1 ++ " " ++ sb p.2 else
+      let r := if k == "m" then M32.mul a b else if k == "e" then M32.mulAssign a b else if k == "s" then M32.mulAssign a a else M32.inverse a
+      " ".intercalate [sb r.a, sb r.b, sb r.c, sb r.d, sb r.e, sb r.f]
+    | _ => "bad-op"
   | "resmf" :: vt :: s :: w :: h :: dw :: dh :: n :: rest =>
     match VT.parse vt, ints [w, h, dw, dh, n], rest.mapM fOfBits with
     | some v, some [w, h, dw, dh, n], some fs =>
@@ -452,6 +500,64 @@ def judge (op obs : String) : String :=
       -- the Spec's map: the PRODUCT M1 * … * Mn (exact, integers over 8^n), independent of how the code composed it
       judgeResGrid v w h dw dh (prodD8 (sixes xs)) ((8 : Int) ^ n.toNat) obs
     | _, _, _ => fail "bad-op"
+  | "resrt" :: vt :: w :: h :: dw :: dh :: _ :: rest =>
+    match VT.parse vt, ints [w, h, dw, dh], ints rest with
+    | some v, some [w, h, dw, dh], some xs =>
+      match (sixes xs).foldl mulI6 [1, 0, 0, 1, 0, 0], obs.splitOn " | " with
+      | [a, b, c, d, e, f], [l, r] =>
+        let det := a * d - b * c
+        if det ≠ 1 ∧ det ≠ -1 then fail "bad-op" else
+        let d1 := words l; let s2 := words r
+        if d1.length ≠ (dw * dh).toNat ∨ s2.length ≠ (w * h).toNat then fail "shape" else
+        let inside (w h x y : Int) : Bool := decide (0 ≤ x) && decide (x < w) && decide (0 ≤ y) && decide (y < h)
+        let idx1 := (irange dh.toNat).flatMap (fun y => (irange dw.toNat).map (fun x => (x, y)))
+        let idx2 := (irange h.toNat).flatMap (fun y => (irange w.toNat).map (fun x => (x, y)))
+        -- forward: dst(x,y) = src(transform(M1*..*Mn,(x,y))) or untouched
+        match firstSome (idx1.zip d1) (fun (xy, t) =>
+            let px := a * xy.1 + c * xy.2 + e; let py := b * xy.1 + d * xy.2 + f
+            if inside w h px py then (if t == pxToken v px py then none else some "integer-point")
+            else (if t == sentToken v then none else some "outside-but-result-modified")) with
+        | some e => fail e
+        | none =>
+          -- backward with inverse(m): the exact inverse of a unimodular integer map is det * (d, -b, -c, a, cf - de, be - af)
+          match firstSome (idx2.zip s2) (fun (uv, t) =>
+              let qx := det * (d * uv.1 - c * uv.2 + (c * f - d * e)); let qy := det * (-b * uv.1 + a * uv.2 + (b * e - a * f))
+              if inside dw dh qx qy then (if t == pxToken v uv.1 uv.2 then none else some "maps-back")
+              else (if t == sentToken v then none else some "outside-but-result-modified")) with
+          | some e => fail e
+          | none => "ok"
+      | _, _ => fail "shape"
+    | _, _, _ => fail "bad-op"
+  | "rescs" :: vt :: _ :: w :: h :: dw :: dh :: n :: rest =>
+    match VT.parse vt, ints [w, h, dw, dh, n], ints rest with
+    | some v, some [w, h, dw, dh, n], some xs =>
+      -- the Spec's map: (M1 * … * Mn) * (M1 * … * Mn)
+      judgeResGrid v w h dw dh (prodD8 (sixes xs ++ sixes xs)) ((8 : Int) ^ (2 * n.toNat)) obs
+    | _, _, _ => fail "bad-op"
+  | "fop" :: k :: rest =>
+    match rest.mapM String.toNat?, (words obs).mapM String.toNat? with
+    | some bs, some os =>
+      let toQ (b : Nat) : Option Rat := ratOfFloat (Float32.ofBits b.toUInt32).toFloat
+      match bs.mapM toQ, os.mapM toQ with
+      | some q, some o =>
+        let a := q.take 6; let b := q.drop 6
+        -- binary32: 1e-9 of the double clauses becomes 1e-5 (relative to the operand sizes)
+        let tol (ms : List (List Rat)) : Rat := tolOf6 ms * 10000
+        if k == "m" then (if closeL6 o (mulQ6 a b) (tol [a, b]) then "ok" else fail "product")
+        else if k == "e" then (if closeL6 o (mulQ6 a b) (tol [a, b]) then "ok" else fail "compound-product")
+        else if k == "s" then (if closeL6 o (mulQ6 a a) (tol [a, a]) then "ok" else fail "compound-product-self")
+        else if k == "i" then
+          let t := tol [o, a] * 100
+          if o.length == 6 && closeL6 (mulQ6 o a) [1, 0, 0, 1, 0, 0] t && closeL6 (mulQ6 a o) [1, 0, 0, 1, 0, 0] t then "ok" else fail "inverse"
+        else if k == "t" then
+          match a, b, o with
+          | [a, b, c, d, e, f], x :: y :: _, [rx, ry] =>
+            let t := tol [[a, b, c, d, e, f, x, y]]
+            if closeQ rx (a * x + c * y + e) t && closeQ ry (b * x + d * y + f) t then "ok" else fail "transform"
+          | _, _, _ => fail "shape"
+        else fail "bad-op"
+      | _, _ => fail "not-a-value"
+    | _, _ => fail "not-a-value"
   | "resmf" :: vt :: _ :: w :: h :: dw :: dh :: _ :: rest =>
     match obs.splitOn " | " with
     | [mm, l, r] =>
